@@ -74,7 +74,8 @@ def cases(ctx):
   for _ in ctx.loop(9000, 300000):
     op = rng.choice(["add", "sub", "mul", "scal", "rscal", "neg", "distrib",
                      "square", "addself", "sadd", "ssub", "rsadd", "rssub",
-                     "pow2", "pow3", "pow4"])
+                     "pow2", "pow3", "pow4", "stmul", "rstmul", "stadd",
+                     "rstadd", "stdiv"])
     f_den = riir_den(rng, 2) if rng.random() < 0.4 else {0: 1}
     yield ("tvalg", op, (rfir(rng, 2), f_den), rfir(rng, 2), rfir(rng, 2),
            rng.choice([2, -3, 4, -1, 0.5]), rng.choice([1, 3, 6, 9, 13]))
@@ -210,8 +211,24 @@ def run_case(ctx, case):
   x = syms("x", xlen)
   # per-sample model
   SCALAR_OPS = ("scal", "rscal", "neg", "sadd", "ssub", "rsadd", "rssub")
+  STREAM_OPS = ("stmul", "rstmul", "stadd", "rstadd", "stdiv")
+  # a bare Stream (or number) operand for the STREAM_OPS: the first
+  # coefficient spec of h
+  sspec = next(iter(hnum.values()), 2)
   if op in SCALAR_OPS:
     specs = [fnum, fden]
+  elif op in STREAM_OPS:
+    specs = [fnum, fden, {0: sspec}]
+    if op == "stdiv":
+      # divisor values: non-zero with an exact reciprocal (x / 3 is a rounded
+      # float, not an algebra question); anything else is not generated
+      vals = sspec[1] if isinstance(sspec, tuple) else [sspec]
+      if any(abs(v) not in (1, 2, 4, 8, 0.5, 0.25) for v in vals):
+        sspec = (sspec[0], [(2, -1, 4, 0.5, -2, 1)[
+          0 if sspec[0] in ("rep", "lrep") else i % 6]
+                            for i in range(len(vals))]) \
+            if isinstance(sspec, tuple) else 2
+      specs = [fnum, fden, {0: sspec}]
   elif op in ("square", "addself", "pow2", "pow3", "pow4"):
     specs = [gnum]
   else:
@@ -245,6 +262,16 @@ def run_case(ctx, case):
       nn, dd = pmul(gn, gn), {0: Fraction(1)}
     elif op == "addself":     # g + g
       nn, dd = pscale(gn, 2), {0: Fraction(1)}
+    elif op in STREAM_OPS:
+      sv = frac(coef_at(sspec, n))
+      if op in ("stmul", "rstmul"):           # f * s, s * f
+        nn, dd = pscale(fn, sv), fd
+      elif op in ("stadd", "rstadd"):         # f + s, s + f
+        nn, dd = padd(fn, pscale(fd, sv)), fd
+      elif sv == 0:
+        return False                          # division by zero: not generated
+      else:                                   # f / s
+        nn, dd = pscale(fn, 1 / sv), fd
     elif op in ("pow2", "pow3", "pow4"):      # g ** n: the library copies
       nn, dd = gn, {0: Fraction(1)}
       for _ in range(int(op[3]) - 1):
@@ -291,9 +318,21 @@ def run_case(ctx, case):
       res_f = c + f
     elif op == "rssub":
       res_f = c - f
+    elif op in STREAM_OPS:
+      sreal = src.make(sspec)
+      res_f = {"stmul": lambda: f * sreal, "rstmul": lambda: sreal * f,
+               "stadd": lambda: f + sreal, "rstadd": lambda: sreal + f,
+               "stdiv": lambda: f / sreal}[op]()
     else:
       h = build(src, hnum, one, "dict")
       res_f = f * (g + h)
+  if op in STREAM_OPS:
+    # g's sources are not part of the result (f's and the operand's are)
+    nf = len([v for v in list(fnum.values()) + list(fden.values())
+              if isinstance(v, tuple) and v[0] in ("fin", "per")])
+    ng = len([v for v in gnum.values()
+              if isinstance(v, tuple) and v[0] in ("fin", "per")])
+    src.probes = src.probes[:nf] + src.probes[nf + ng:]
   if op in SCALAR_OPS:
     # g's sources are not part of the result
     src.probes = [p for p in src.probes[:len([v for v in list(fnum.values()) +
@@ -317,5 +356,5 @@ def finish(ctx):
     ctx.need(k, 30)
   for op in ["add", "sub", "mul", "scal", "rscal", "neg", "distrib", "square",
              "addself", "sadd", "ssub", "rsadd", "rssub", "pow2", "pow3",
-             "pow4"]:
+             "pow4", "stmul", "rstmul", "stadd", "rstadd", "stdiv"]:
     ctx.need("algebra:" + op, 30)
